@@ -72,9 +72,17 @@ def main():
         for sub in ("demo",):
             if os.path.isdir(os.path.join(src, sub)):
                 shutil.copytree(os.path.join(src, sub), os.path.join(demo_dir, sub), dirs_exist_ok=True)
+        into = a[a.index("--demo-into") + 1] if "--demo-into" in a else None
+        if into:
+            # package-internal demonstration: copied next to the package's own files
+            shutil.rmtree(demo_dir, ignore_errors=True)
+            for f in demos:
+                shutil.copy(os.path.join(src, f), os.path.join(wt, into, "seed_" + x.lower() + "_" + f))
         tags = "-tags verif" if "verifhook" in "".join(open(os.path.join(src, f)).read() for f in demos) else ""
         race = "-race" if re.search(r"-race", meta["author_meta"]) and "race" in meta["author_meta"].lower() and "data race" in meta["author_meta"].lower() else ""
         demo_cmd = f"go test -count=1 {tags} {race} ./SEED/{x}/..."
+        if into:
+            demo_cmd = f"go test -count=1 {tags} {race} -run 'TestSeed' ./{into}/"
         rc_with, o_with = sh(demo_cmd, cwd=wt, timeout=1200)
         meta["ran"].append(dict(cmd=demo_cmd + "   (with the change)", rc=rc_with, tail=o_with[-600:]))
         sh(["git", "checkout", "--", "."], cwd=wt)
